@@ -1,9 +1,151 @@
 import Driver.Util
-open Lean
+import NixModel.Pure.DataView
+open Lean Nix Nix.Py Nix.NdIndex Nix.DataView
 
+/-!
+Line protocol of C06 (one JSON array per line):
+
+* index component: integer | `{"s":[start,stop,step]}` (entries integer or null) | `"..."`;
+  an index expression is a JSON array (Python tuple) or a single component (passed unwrapped
+  to `__getitem__`; both h5py and `DataView` wrap it into a 1-tuple);
+* `["indices",[a,b,c],len]`, `["range",lo,hi,step]`          — CPython stand-ins;
+* `["np",shape,ix]`                                          — NumPy stand-in (`npSelect`);
+* `["da_read",shape,ix]`, `["da_write",shape,ix]`            — `DataArray.__getitem__/__setitem__`;
+* `["mkview",shape,slices]` (slices null | [null | [a,b]])   — `DataView(da, slices)`;
+* `["view",shape,positions,extents|null]`                    — `get_slice` (index mode);
+* `["view_read",shape,positions,extents,ix|null]`, `["view_write",…]` — through the view
+  (`ix = null` is `sl=None`: `_read_data()` / `write_direct`).
+
+Selections are printed as `{"shape":[…],"idx":[C-order offsets in the parent, in result order]}`.
+-/
 namespace Driver.C06
 
-/-- stub: replaced when the model of C06 is built -/
-def main : IO Unit := pureLoop fun _ => bad "C06: model driver not built yet"
+def optInt? (j : Json) : Option (Option Int) :=
+  if isNull j then some none else (jInt? j).map some
+
+def slice? (j : Json) : Option PySlice :=
+  match jArr j |>.toList with
+  | [a, b, c] => do
+    let a ← optInt? a
+    let b ← optInt? b
+    let c ← optInt? c
+    pure ⟨a, b, c⟩
+  | _ => none
+
+def ix1? (j : Json) : Option Ix :=
+  match j with
+  | .str "..." => some .ellipsis
+  | .obj _ =>
+    match j.getObjVal? "s" with
+    | .ok s => (slice? s).map Ix.slice
+    | _ => none
+  | _ => (jInt? j).map Ix.int
+
+def ix? (j : Json) : Option (List Ix) :=
+  match j with
+  | .arr a => a.toList.mapM ix1?
+  | _ => (ix1? j).map fun i => [i]
+
+def ints? (j : Json) : Option (List Int) :=
+  match j with
+  | .arr a => a.toList.mapM jInt?
+  | _ => none
+
+def nats? (j : Json) : Option (List Nat) := do
+  let l ← ints? j
+  if l.all (fun i => decide (i ≥ 0)) then pure (l.map Int.toNat) else none
+
+def jInts (l : List Int) : Json := Json.arr (l.map fun i => Json.num (JsonNumber.fromInt i)).toArray
+def jNats (l : List Nat) : Json := jInts (l.map Int.ofNat)
+
+def selJson (parent : List Nat) (shape : List Nat) (sel : List AxisSel) : Json :=
+  Json.mkObj [("shape", jNats shape), ("idx", jInts ((selIndices sel).map (flatIndex parent)))]
+
+def outSel (parent : List Nat) (rank0 : Bool) : Except Err (List AxisSel) → Json
+  | .ok sel => ok (selJson parent (if rank0 then resultShape sel else selShape sel) sel)
+  | .error e => err e
+
+def outRead (parent : List Nat) : Except Err Read → Json
+  | .ok .empty => ok (Json.mkObj [("shape", jNats [0]), ("idx", jInts [])])
+  | .ok (.sel sel) => ok (selJson parent (resultShape sel) sel)
+  | .error e => err e
+
+def viewJson (v : View) : Json :=
+  Json.mkObj [("valid", Json.bool v.valid),
+    ("shape", match v.shape with | some s => jInts s | none => Json.null),
+    ("window", if v.valid then Json.arr (v.window.map fun w => jInts [w.1, w.2]).toArray else Json.null)]
+
+def win? (j : Json) : Option (Option Win) :=
+  if isNull j then some none else
+  match ints? j with
+  | some [a, b] => some (some (a, b))
+  | _ => none
+
+def slices? (j : Json) : Option (Option (List (Option Win))) :=
+  if isNull j then some none else
+  match j with
+  | .arr a => (a.toList.mapM win?).map some
+  | _ => none
+
+def optInts? (j : Json) : Option (Option (List Int)) :=
+  if isNull j then some none else (ints? j).map some
+
+def optIx? (j : Json) : Option (Option (List Ix)) :=
+  if isNull j then some none else (ix? j).map some
+
+def handle (j : Json) : Json :=
+  match jArr j |>.toList with
+  | [Json.str "indices", s, len] =>
+    match slice? s, jInt? len with
+    | some s, some len =>
+      if len < 0 then bad "negative length" else
+      match s.indices len.toNat with
+      | .ok (a, b, k) => ok (jInts [a, b, k])
+      | .error e => err e
+    | _, _ => bad "indices: malformed"
+  | [Json.str "range", lo, hi, step] =>
+    match jInt? lo, jInt? hi, jInt? step with
+    | some lo, some hi, some step => ok (jInts (pyRange lo hi step))
+    | _, _, _ => bad "range: malformed"
+  | [Json.str "np", shape, ix] =>
+    match nats? shape, ix? ix with
+    | some shape, some ix => outSel shape false (npSelect shape ix)
+    | _, _ => bad "np: malformed"
+  | [Json.str "da_read", shape, ix] =>
+    match nats? shape, ix? ix with
+    | some shape, some ix => outSel shape true (daRead shape ix)
+    | _, _ => bad "da_read: malformed"
+  | [Json.str "da_write", shape, ix] =>
+    match nats? shape, ix? ix with
+    | some shape, some ix => outSel shape false (daWrite shape ix)
+    | _, _ => bad "da_write: malformed"
+  | [Json.str "mkview", shape, sl] =>
+    match nats? shape, slices? sl with
+    | some shape, some sl => ok (viewJson (mkView shape sl))
+    | _, _ => bad "mkview: malformed"
+  | [Json.str "view", shape, pos, ext] =>
+    match nats? shape, ints? pos, optInts? ext with
+    | some shape, some pos, some ext =>
+      match getSlice shape pos ext with
+      | .ok v => ok (viewJson v)
+      | .error e => err e
+    | _, _, _ => bad "view: malformed"
+  | [Json.str "view_read", shape, pos, ext, ix] =>
+    match nats? shape, ints? pos, optInts? ext, optIx? ix with
+    | some shape, some pos, some ext, some ix =>
+      match getSlice shape pos ext with
+      | .ok v => outRead shape (viewRead v ix)
+      | .error e => err e
+    | _, _, _, _ => bad "view_read: malformed"
+  | [Json.str "view_write", shape, pos, ext, ix] =>
+    match nats? shape, ints? pos, optInts? ext, optIx? ix with
+    | some shape, some pos, some ext, some ix =>
+      match getSlice shape pos ext with
+      | .ok v => outSel shape false (viewWrite v ix)
+      | .error e => err e
+    | _, _, _, _ => bad "view_write: malformed"
+  | _ => bad "C06: unknown op"
+
+def main : IO Unit := pureLoop handle
 
 end Driver.C06
